@@ -227,6 +227,10 @@ Definition share_cpu (a b : pdesc) : bool :=
 Definition policies_agree (ds : list pdesc) : bool :=
   forallb (fun a => forallb (fun b => negb (share_cpu a b) || (d_excl a =? d_excl b)) ds) ds.
 
+(* no Reservation that gets a cpuset asks for an exclusive policy (see Model.persisted_excl) *)
+Definition rsv_no_excl (ds : list pdesc) : bool :=
+  forallb (fun d => negb (d_kind d =? 1) || is_nil (d_cpus d) || (d_excl d =? 0)) ds.
+
 Definition nontrivial_numa (c : ncase) : bool :=
   (* at least one cut at which a bound, non-empty allocation has to be restored *)
   existsb (fun life => existsb (fun u => (life u =? 2) && negb (empty_alloc (written (c_descs c) u)))
